@@ -149,6 +149,13 @@ func checkPathIdentities(p *Program, r *Report) {
 		}
 		k := loopFunction(m.Kernel)
 		loops := timeLoops(k)
+		if len(loops) == 0 && handsTimestepToVisitor(p, k) {
+			// the timestep is a closure handed to a visiting helper: the path engine walks the blocks of one loop of
+			// the kernel itself and does not follow this form (R16.3 does, for the models it covers)
+			r.Unsupported("R16.4", key+": the time loop lives in a visiting helper that is handed the timestep as a closure")
+			r.Unsupported("R16.5", key+": the time loop lives in a visiting helper that is handed the timestep as a closure")
+			continue
+		}
 		if len(loops) != 1 {
 			r.Undecided("R16.4", key+":loop", p.Pos(k.Pos()), fmt.Sprintf("expected exactly one time loop, found %d", len(loops)))
 			continue
@@ -624,4 +631,18 @@ func checkPathIdentities(p *Program, r *Report) {
 	r.Floor("R16.4", "models with per-path identities", nModels, 6)
 	r.Floor("R16.4", "relations", nRel, 10)
 	r.Floor("R16.5", "driven outputs", nZero, 10)
+}
+
+// handsTimestepToVisitor: k calls a module helper of the walkSeries shape with a function literal.
+func handsTimestepToVisitor(p *Program, k *ssa.Function) bool {
+	for _, c := range callsIn(k) {
+		h := c.Common().StaticCallee()
+		if h == nil || h.Blocks == nil || !InModule(h) || len(h.Params) != len(c.Common().Args) {
+			continue
+		}
+		if fi, ok := walkHelperShape(p, h); ok && closureValueOf(c.Common().Args[fi]) != nil {
+			return true
+		}
+	}
+	return false
 }
